@@ -100,6 +100,11 @@ pub const ZERO_SIZED: &[(&str, &str, &[usize], usize)] = &[
     ("more parties than input bits", "pub fn main(a: (), b: [u8; 0], c: (), d: bool) -> bool {\n  d\n}\n", &[0, 0, 0, 1], 1),
     ("more parties than input bits, with gates", "pub fn main(a: (), b: (), c: (), d: bool, e: bool) -> (bool, bool) {\n  (!(d & e) ^ d, d | e)\n}\n", &[0, 0, 0, 1, 1], 2),
     ("zero-sized parties after the bits", "pub fn main(d: bool, a: (), b: [u8; 0], c: ()) -> bool {\n  !d\n}\n", &[1, 0, 0, 0], 1),
+    ("assign to elements of an array of units", "pub fn main(x: u8, i: usize) -> u8 {\n  let mut a = [(); 2];\n  a[0] = ();\n  a[i] = ();\n  x\n}\n", &[8, 32], 8),
+    ("assign to a unit field of an array element", "pub fn main(x: u8, i: usize) -> u8 {\n  let mut a = [((), x); 3];\n  a[i].0 = ();\n  a[1].1 = 7u8;\n  a[i].1\n}\n", &[8, 32], 8),
+    ("join_iter of two empty arrays", "pub fn main(a: [(u8, u8); 0], b: [(u8, u8); 0], z: u8) -> u8 {\n  let mut s = z;\n  for (x, y) in join_iter(a, b) {\n    s = s + 1u8;\n  }\n  s\n}\n", &[0, 0, 8], 8),
+    ("join_iter of an empty and a non-empty array", "pub fn main(a: [(u8, u8); 0], b: [(u8, u8); 2], z: u8) -> u8 {\n  let mut s = z;\n  for (x, y) in join_iter(a, b) {\n    s = s + 1u8;\n  }\n  s\n}\n", &[0, 32, 8], 8),
+    ("join of an empty and a non-empty array", "pub fn main(a: [u8; 0], b: [u8; 2], z: u8) -> [(bool, u8); 1] {\n  join(a, b)\n}\n", &[0, 16, 8], 9),
     ("join a wider n2m1", "pub fn main(a: [(u8, u16); 2], b: [(u8, u8); 1]) -> [(bool, (u8, u16), (u8, u8)); 2] {\n  join(a, b)\n}\n", &[48, 16], 82),
     ("join a wider n1m2", "pub fn main(a: [(u8, u16); 1], b: [(u8, u8); 2]) -> [(bool, (u8, u16), (u8, u8)); 2] {\n  join(a, b)\n}\n", &[24, 32], 82),
     ("join a wider n3m2", "pub fn main(a: [(u8, u16, bool); 3], b: [(u8, u8); 2]) -> [(bool, (u8, u16, bool), (u8, u8)); 4] {\n  join(a, b)\n}\n", &[75, 32], 168),
